@@ -432,7 +432,9 @@ pub fn relative<T: AsRef<Path>, U: AsRef<Path>>(path: T, base: U) -> RvResult<Pa
         }
         return Ok(comps.iter().collect::<PathBuf>());
     }
-    Ok(path.to_owned())
+
+    // The path is the base so staying put is the relative way to get there
+    Ok(PathBuf::from(Component::CurDir.as_os_str()))
 }
 
 /// Returns a new [`PathBuf`] with the file extension trimmed off.
